@@ -159,6 +159,29 @@ class HarnessError(Exception):
     pass
 
 
+MAP_LIMIT = int(os.environ.get("VERIF_MAP_LIMIT", "30000"))
+
+
+def _relieve_mappings(ctx=None):
+    """Every XLA executable keeps several memory mappings; a process that has compiled a few thousand of them reaches the kernel's
+    vm.max_map_count (65530) and the next compilation fails with "LLVM compilation error: Cannot allocate memory" and kills the process.
+    Long shards therefore drop jax's compilation caches when the mapping count passes MAP_LIMIT (recompiling is only a cost)."""
+    try:
+        with open("/proc/self/maps") as f:
+            n = sum(1 for _ in f)
+    except OSError:
+        return
+    if n > MAP_LIMIT:
+        import gc
+
+        import jax
+
+        jax.clear_caches()
+        gc.collect()
+        if ctx is not None:
+            ctx.count("harness:jax-caches-cleared")
+
+
 def load_known() -> dict:
     if not os.path.exists(KNOWN_FILE):
         return {"findings": [], "fixed": []}
@@ -187,6 +210,8 @@ class Ctx:
 
     def case(self, case: Any, nontrivial: bool = True, classes=(), summary: Any = None):
         self.evaluations += 1
+        if self.evaluations % 16 == 0:
+            _relieve_mappings(self)
         for c in classes:
             self.count(c)
         if nontrivial:
